@@ -6,34 +6,88 @@
 //	clone_body_is_wrap      : bool          Clone's body is exactly `return &Statement{s}`
 //	new_statement_is_fresh  : bool          newStatement's body is exactly `return &Statement{}`
 //	append_only_methods     : list (str * bool)
-//	    one row per method whose receiver is Statement / *Statement: true iff every
-//	    occurrence of a Statement-typed VALUE (the slice header, e.g. `*s`) in its body is in
-//	    one of the harmless positions listed at `allowed` below, the only assignment form
-//	    being `*s = append(*s, ...)` on the receiver
-//	other_writes            : list str      the same occurrences everywhere else in the package
+//	    one row per method whose receiver is Statement / *Statement: true iff nothing in its
+//	    body is reported by the rules below
+//	append_only_violations  : list str      why a row above is false
+//	other_writes            : list str      the same reports everywhere else in the package
 //	                                        (other functions, methods of other types, function
 //	                                        literals, package-level initialisers); expected empty
+//	copies_readonly         : list copy_row (Spec/CloneShape.v)
+//	    one row (function, "file:line name", uses) per COPY of a Statement's slice header: a
+//	    local variable or parameter that receives one (`uses` is the category of every
+//	    mention of it in the package), and one row per Statement-valued expression that is
+//	    not a mention of such a variable and is in any position other than the direct ones
+//	    (rules 1-3 and 10 below): copied, passed on, resliced, compared, ... or misused.  The
+//	    Coq side (copies_closed_readonly) decides from the categories; a category that is not
+//	    read-only is also reported in append_only_violations / other_writes.
 //
-// A Statement-typed value expression is harmless when it is
-//   - the operand of `range` (with := or no variables),
-//   - the X of an index expression that is only read,
-//   - the argument of len or cap,
-//   - both the left side and the first argument of `*s = append(*s, ...)` where s is the
-//     receiver of the enclosing method (a *Statement),
-//   - a composite literal `Statement{...}` (a fresh value).
+// TRUSTED RULES (what this program is trusted to classify as the syntax tree says).
 //
-// Anything else - `x := *s`, `(*s)[i] = c`, `(*s)[i:j]`, `&(*s)[i]`, `append(*s, c)` not assigned
-// back, `copy(*s, ..)`, `[]Code(*s)`, passing `*s` to a function, returning it - could create
-// a second header over the same array or write an element in place, and is reported.
+// A "header expression" is an expression that may denote the slice header of a Statement:
+//
+//	(H1) any value expression whose type is Statement (`*s`, a Statement-typed variable, field,
+//	     call result, ...), except a composite literal `Statement{...}` (a fresh value);
+//	(H2) a mention of a TRACKED variable: a local variable or parameter, of any slice type
+//	     (Statement, []Code, ...), that some header expression is copied into (rules 7, 8);
+//	(H3) a reslice `e[i:j]`, `e[i:j:k]` or a conversion to a slice type `[]Code(e)`,
+//	     `Statement(e)` of a header expression e.
+//
+// Every header expression is classified by the syntactic position it is in.  READ-ONLY:
+//  1. operand of `range` (with := or no iteration variables)              UseRange
+//  2. the X of an index expression that is only read                      UseIndexRead
+//  3. the argument of len / cap                                           UseLen / UseCap
+//  4. operand of == or != (a slice can only be compared with nil)         UseNilCmp
+//  5. a non-first argument `e...` of append; the second argument of copy  UseAppendSrc / UseCopySrc
+//     (the elements are read and copied elsewhere)
+//  6. the X of a reslice or the argument of a conversion to a slice type: the result is a
+//     header expression again, classified by ITS position            UseReslice u / UseConvert u
+//  7. the right side of `x := e`, `var x = e`, `var x T = e` (also positionwise in
+//     `a, b := e1, e2`) where x is a NEW LOCAL variable of slice type: x becomes tracked and
+//     every mention of x anywhere is classified by these same rules        UseCopyTo x
+//  8. an argument of a call that is statically bound (a function, or a method called on a
+//     non-interface receiver) to a function DECLARED WITH A BODY IN PACKAGE JEN, in a
+//     parameter position of slice type (`e...` in the variadic position included); the
+//     call is not the operand of go/defer: the callee's parameter becomes tracked and every
+//     mention of it is classified by these same rules - transitively; a parameter already
+//     being analysed is not analysed again (the table is a greatest fixed point: a cycle of
+//     helpers is accepted iff every mention in the cycle is read-only)      UsePass f p
+//  9. for a tracked variable x only: `x = x[i:j]` (x replaced by a reslice of itself)
+//     UseSelfAssign
+//
+// and for the receiver s (a *Statement) of the enclosing method only:
+//  10. both the left side and the first argument of `*s = append(*s, ...)` (not a copy).
+//
+// NOT read-only, reported:
+//
+//	first argument of append otherwise (UseAppendDst); `e[i] = ..`, `e[i]++`, `e[i]` as range
+//	variable (UseElemWrite); first argument of copy (UseCopyDst); `&e` (UseAddr); `&e[i]`
+//	(UseElemAddr); returned (UseReturned); a tracked variable mentioned inside a function
+//	literal that does not declare it (UseClosure); assigned to an existing variable, a field,
+//	an element, a dereference, a package-level variable, put in a composite literal, sent on a
+//	channel, converted to a non-slice type, passed to go/defer, passed to a function outside
+//	package jen, to a function value, to an interface method, to a parameter that is not of
+//	slice type (UseStored); `*s` overwritten by anything but append to itself, a method called
+//	on a copy (its address is taken), and every other position (UseOther).
+//
+// Additionally reported (these would let a header be copied without any header expression
+// appearing): an expression whose type holds a Statement BY VALUE inside a struct, array,
+// slice, map or channel; `for .. = range` (assignment form) over a Statement.
+//
+// Why read-only copies are harmless for C20: the theorems of Props/C20.v are about histories
+// of newStatement / `*s = append(*s, ..)` / Clone on the statement CELLS; a second header that
+// is never appended to, written through, stored or returned dies with the call that made it
+// and cannot change any array, so every builder call is still an OAppend and nothing else
+// writes.  Appending through a second header is what the refuted mutant [clone_header] does.
 package main
 
 import (
+	"bytes"
 	"fmt"
 	"go/ast"
 	"go/build"
-	"go/build/constraint"
 	"go/importer"
 	"go/parser"
+	"go/printer"
 	"go/token"
 	"go/types"
 	"os"
@@ -49,29 +103,6 @@ func die(format string, a ...interface{}) {
 	os.Exit(2)
 }
 
-// buildable reports whether the file is part of the package with no build tags set
-// (in particular with the tag verif off).
-func buildable(f *ast.File) bool {
-	for _, cg := range f.Comments {
-		if cg.Pos() >= f.Package {
-			break
-		}
-		for _, c := range cg.List {
-			if !constraint.IsGoBuild(c.Text) {
-				continue
-			}
-			e, err := constraint.Parse(c.Text)
-			if err != nil {
-				die("%v", err)
-			}
-			if !e.Eval(func(tag string) bool { return false }) {
-				return false
-			}
-		}
-	}
-	return true
-}
-
 func unparen(e ast.Expr) ast.Expr {
 	for {
 		p, ok := e.(*ast.ParenExpr)
@@ -82,161 +113,81 @@ func unparen(e ast.Expr) ast.Expr {
 	}
 }
 
-type checker struct {
+// use is one classified mention of a header expression: a term of type copy_use
+// (Spec/CloneShape.v); bad is "" for the read-only categories.
+type use struct {
+	coq   string // the Coq term
+	short string // for messages
+	bad   string // why it is not read-only
+}
+
+func ro(ctor string) use { return use{coq: ctor, short: ctor} }
+
+func badUse(coq, why string) use { return use{coq: coq, short: coq, bad: why} }
+
+func stored(what string) use {
+	return use{coq: "UseStored " + coqfmt.Str(what), short: "UseStored", bad: what}
+}
+
+func other(what string) use {
+	return use{coq: "UseOther " + coqfmt.Str(what), short: "UseOther", bad: what}
+}
+
+func wrap(ctor string, u use) use {
+	return use{coq: ctor + " (" + u.coq + ")", short: ctor + " " + u.short, bad: u.bad}
+}
+
+// copyRow is one row of copies_readonly.
+type copyRow struct {
+	fn   string // key of the function the copy lives in
+	name string // "file.go:line name"
+	pos  token.Pos
+	uses []use
+}
+
+type analysis struct {
 	fset     *token.FileSet
 	info     *types.Info
-	stmtType types.Type // the named type Statement
-	recv     *types.Var // receiver of the enclosing Statement method when it is a *Statement
-	bad      []string
+	pkg      *types.Package
+	stmtType types.Type
+	parent   map[ast.Node]ast.Node
+	decls    map[*types.Func]*ast.FuncDecl
+	usesOf   map[*types.Var][]*ast.Ident
+	tracked  map[*types.Var]*copyRow
+	queue    []*types.Var
+	exprRows []*copyRow
+	// reports, by enclosing top-level declaration
+	reports map[ast.Node][]string
+	seen    map[string]bool
 }
 
-func (c *checker) isStmtValue(e ast.Expr) bool {
-	tv, ok := c.info.Types[e]
-	if !ok || tv.Type == nil || !tv.IsValue() {
-		return false
-	}
-	return types.Identical(tv.Type, c.stmtType)
+func (a *analysis) posText(p token.Pos) string {
+	q := a.fset.Position(p)
+	return fmt.Sprintf("%s:%d", filepath.Base(q.Filename), q.Line)
 }
 
-func (c *checker) isRecvDeref(e ast.Expr) bool {
-	st, ok := unparen(e).(*ast.StarExpr)
-	if !ok || c.recv == nil {
-		return false
+func (a *analysis) exprText(e ast.Expr) string {
+	var b bytes.Buffer
+	printer.Fprint(&b, a.fset, e)
+	s := strings.Join(strings.Fields(b.String()), " ")
+	if len(s) > 60 {
+		s = s[:57] + "..."
 	}
-	id, ok := unparen(st.X).(*ast.Ident)
-	return ok && c.info.Uses[id] == c.recv
+	return s
 }
 
-func (c *checker) isBuiltin(fun ast.Expr, name string) bool {
-	id, ok := unparen(fun).(*ast.Ident)
-	if !ok || id.Name != name {
-		return false
+// top: the top-level declaration a node is in.
+func (a *analysis) top(n ast.Node) ast.Node {
+	for {
+		p := a.parent[n]
+		if p == nil {
+			return n
+		}
+		if _, ok := p.(*ast.File); ok {
+			return n
+		}
+		n = p
 	}
-	_, isb := c.info.Uses[id].(*types.Builtin)
-	return isb
-}
-
-func (c *checker) report(n ast.Node, what string) {
-	p := c.fset.Position(n.Pos())
-	c.bad = append(c.bad, fmt.Sprintf("%s:%d: %s", filepath.Base(p.Filename), p.Line, what))
-}
-
-// walk visits the tree below n keeping the chain of ancestors, and classifies every
-// Statement-typed value expression by its context.
-func (c *checker) walk(n ast.Node) {
-	var stack []ast.Node
-	ast.Inspect(n, func(x ast.Node) bool {
-		if x == nil {
-			stack = stack[:len(stack)-1]
-			return true
-		}
-		if e, ok := x.(ast.Expr); ok {
-			if _, isParen := e.(*ast.ParenExpr); !isParen && c.isStmtValue(e) {
-				c.classify(e, stack)
-			}
-		}
-		stack = append(stack, x)
-		return true
-	})
-}
-
-func (c *checker) classify(e ast.Expr, stack []ast.Node) {
-	// a fresh value
-	if _, ok := e.(*ast.CompositeLit); ok {
-		return
-	}
-	// nearest ancestor that is not a parenthesis, and the child through which we reach it
-	i := len(stack) - 1
-	var child ast.Node = e
-	for i >= 0 {
-		if _, ok := stack[i].(*ast.ParenExpr); !ok {
-			break
-		}
-		child = stack[i]
-		i--
-	}
-	if i < 0 {
-		c.report(e, "Statement value in an unknown position")
-		return
-	}
-	switch p := stack[i].(type) {
-	case *ast.RangeStmt:
-		if p.X == child {
-			if p.Tok == token.ASSIGN {
-				c.report(e, "range over a Statement assigning to existing variables")
-			}
-			return
-		}
-	case *ast.IndexExpr:
-		if p.X == child {
-			// read position? look at what holds the index expression
-			j := i - 1
-			var ch ast.Node = p
-			for j >= 0 {
-				if _, ok := stack[j].(*ast.ParenExpr); !ok {
-					break
-				}
-				ch = stack[j]
-				j--
-			}
-			if j >= 0 {
-				switch q := stack[j].(type) {
-				case *ast.AssignStmt:
-					for _, l := range q.Lhs {
-						if l == ch {
-							c.report(e, "element of a Statement assigned in place")
-							return
-						}
-					}
-				case *ast.IncDecStmt:
-					c.report(e, "element of a Statement modified in place")
-					return
-				case *ast.UnaryExpr:
-					if q.Op == token.AND {
-						c.report(e, "address of an element of a Statement taken")
-						return
-					}
-				case *ast.RangeStmt:
-					if q.Key == ch || q.Value == ch {
-						c.report(e, "element of a Statement assigned by range")
-						return
-					}
-				}
-			}
-			return
-		}
-	case *ast.CallExpr:
-		if (c.isBuiltin(p.Fun, "len") || c.isBuiltin(p.Fun, "cap")) && len(p.Args) == 1 && p.Args[0] == child {
-			return
-		}
-		if c.isBuiltin(p.Fun, "append") && len(p.Args) >= 1 && p.Args[0] == child && c.isRecvDeref(e) {
-			// must be the right side of `*s = append(*s, ...)`
-			if i >= 1 {
-				if as, ok := stack[i-1].(*ast.AssignStmt); ok && as.Tok == token.ASSIGN &&
-					len(as.Lhs) == 1 && len(as.Rhs) == 1 && as.Rhs[0] == p && c.isRecvDeref(as.Lhs[0]) {
-					return
-				}
-			}
-			c.report(e, "append to a Statement whose result is not assigned back to it")
-			return
-		}
-	case *ast.AssignStmt:
-		// the append call itself (its type is Statement) as the right side of `*s = append(*s, ...)`
-		if call, ok := e.(*ast.CallExpr); ok && p.Tok == token.ASSIGN && len(p.Lhs) == 1 && len(p.Rhs) == 1 &&
-			p.Rhs[0] == child && c.isBuiltin(call.Fun, "append") && len(call.Args) >= 1 &&
-			c.isRecvDeref(call.Args[0]) && c.isRecvDeref(p.Lhs[0]) {
-			return
-		}
-		if p.Tok == token.ASSIGN && len(p.Lhs) == 1 && len(p.Rhs) == 1 && p.Lhs[0] == child && c.isRecvDeref(e) {
-			if call, ok := unparen(p.Rhs[0]).(*ast.CallExpr); ok && c.isBuiltin(call.Fun, "append") &&
-				len(call.Args) >= 1 && c.isRecvDeref(call.Args[0]) {
-				return
-			}
-			c.report(e, "Statement overwritten by something other than append to itself")
-			return
-		}
-	}
-	c.report(e, fmt.Sprintf("Statement value used as %T operand (possible second header over the same array)", stack[i]))
 }
 
 func recvBase(fd *ast.FuncDecl) (name string, ptr bool) {
@@ -251,6 +202,495 @@ func recvBase(fd *ast.FuncDecl) (name string, ptr bool) {
 		return id.Name, ptr
 	}
 	return "", false
+}
+
+func fnKey(n ast.Node) string {
+	fd, ok := n.(*ast.FuncDecl)
+	if !ok {
+		return "(package-level initialiser)"
+	}
+	if base, _ := recvBase(fd); base != "" {
+		return base + "." + fd.Name.Name
+	}
+	if fd.Recv != nil {
+		return "?." + fd.Name.Name
+	}
+	return fd.Name.Name
+}
+
+// recvOf: the receiver variable of the enclosing method when that is a *Statement.
+func (a *analysis) recvOf(n ast.Node) *types.Var {
+	fd, ok := a.top(n).(*ast.FuncDecl)
+	if !ok {
+		return nil
+	}
+	base, ptr := recvBase(fd)
+	if base != "Statement" || !ptr || len(fd.Recv.List[0].Names) != 1 {
+		return nil
+	}
+	v, _ := a.info.Defs[fd.Recv.List[0].Names[0]].(*types.Var)
+	return v
+}
+
+func (a *analysis) isRecvDeref(e ast.Expr) bool {
+	st, ok := unparen(e).(*ast.StarExpr)
+	if !ok {
+		return false
+	}
+	recv := a.recvOf(e)
+	if recv == nil {
+		return false
+	}
+	id, ok := unparen(st.X).(*ast.Ident)
+	return ok && a.info.Uses[id] == recv
+}
+
+func (a *analysis) isBuiltin(fun ast.Expr, name string) bool {
+	id, ok := unparen(fun).(*ast.Ident)
+	if !ok || id.Name != name {
+		return false
+	}
+	_, isb := a.info.Uses[id].(*types.Builtin)
+	return isb
+}
+
+func (a *analysis) isAnyBuiltin(fun ast.Expr) bool {
+	id, ok := unparen(fun).(*ast.Ident)
+	if !ok {
+		return false
+	}
+	_, isb := a.info.Uses[id].(*types.Builtin)
+	return isb
+}
+
+func (a *analysis) isStmtValue(e ast.Expr) bool {
+	tv, ok := a.info.Types[e]
+	if !ok || tv.Type == nil || !tv.IsValue() {
+		return false
+	}
+	return types.Identical(tv.Type, a.stmtType)
+}
+
+func isSlice(t types.Type) bool {
+	if t == nil {
+		return false
+	}
+	if _, ok := t.(*types.TypeParam); ok {
+		return false
+	}
+	_, ok := t.Underlying().(*types.Slice)
+	return ok
+}
+
+// up: the nearest ancestor of n that is not a parenthesis, and the child through which it
+// is reached.
+func (a *analysis) up(n ast.Node) (p ast.Node, child ast.Node) {
+	child = n
+	p = a.parent[n]
+	for {
+		pe, ok := p.(*ast.ParenExpr)
+		if !ok {
+			return p, child
+		}
+		child = pe
+		p = a.parent[pe]
+	}
+}
+
+// localVar: v is a variable declared inside a function (not a field, not package-level).
+func (a *analysis) localVar(v *types.Var) bool {
+	return v != nil && !v.IsField() && v.Parent() != nil && v.Parent() != a.pkg.Scope() && v.Parent() != types.Universe
+}
+
+func (a *analysis) varKey(v *types.Var) string {
+	name := v.Name()
+	if name == "" {
+		name = "_"
+	}
+	return a.posText(v.Pos()) + " " + name
+}
+
+// track makes v a tracked copy (once) and returns its key; bad != "" when v cannot be one.
+func (a *analysis) track(v *types.Var, declIn ast.Node) (key string, bad string) {
+	if !a.localVar(v) {
+		return "", "stored in the non-local variable " + v.Name()
+	}
+	if !isSlice(v.Type()) {
+		return "", "stored in the variable " + v.Name() + " of non-slice type " + v.Type().String()
+	}
+	if r, ok := a.tracked[v]; ok {
+		return r.name, ""
+	}
+	r := &copyRow{fn: fnKey(a.top(declIn)), name: a.varKey(v), pos: v.Pos()}
+	a.tracked[v] = r
+	a.queue = append(a.queue, v)
+	return r.name, ""
+}
+
+// selfReslice: e is x, x[i:j], x[i:j][k:l], ... for the variable v.
+func (a *analysis) selfReslice(e ast.Expr, v *types.Var) bool {
+	for {
+		e = unparen(e)
+		switch x := e.(type) {
+		case *ast.SliceExpr:
+			e = x.X
+		case *ast.Ident:
+			return a.info.Uses[x] == v
+		default:
+			return false
+		}
+	}
+}
+
+// rootVar: the variable at the root of a chain of reslices.
+func (a *analysis) rootVar(e ast.Expr) *types.Var {
+	for {
+		e = unparen(e)
+		switch x := e.(type) {
+		case *ast.SliceExpr:
+			e = x.X
+		case *ast.Ident:
+			v, _ := a.info.Uses[x].(*types.Var)
+			return v
+		default:
+			return nil
+		}
+	}
+}
+
+// callee: the function of package jen a call is statically bound to, with its declaration.
+func (a *analysis) callee(call *ast.CallExpr) (*types.Func, *ast.FuncDecl) {
+	var id *ast.Ident
+	switch f := unparen(call.Fun).(type) {
+	case *ast.Ident:
+		id = f
+	case *ast.SelectorExpr:
+		if sel, ok := a.info.Selections[f]; ok {
+			if sel.Kind() != types.MethodVal || types.IsInterface(sel.Recv()) {
+				return nil, nil
+			}
+		}
+		id = f.Sel
+	default:
+		return nil, nil
+	}
+	fn, ok := a.info.Uses[id].(*types.Func)
+	if !ok || fn.Pkg() != a.pkg {
+		return nil, nil
+	}
+	d := a.decls[fn]
+	if d == nil || d.Body == nil {
+		return nil, nil
+	}
+	sig := fn.Type().(*types.Signature)
+	if sig.TypeParams() != nil || sig.RecvTypeParams() != nil {
+		return nil, nil
+	}
+	return fn, d
+}
+
+// classify: the category of the position the header expression e is in.
+func (a *analysis) classify(e ast.Expr) use {
+	// a tracked or any other local variable mentioned inside a function literal that does
+	// not declare it
+	if id, ok := e.(*ast.Ident); ok {
+		if v, ok := a.info.Uses[id].(*types.Var); ok && a.localVar(v) {
+			for n := a.parent[ast.Node(id)]; n != nil; n = a.parent[n] {
+				if fl, ok := n.(*ast.FuncLit); ok && !(fl.Pos() <= v.Pos() && v.Pos() < fl.End()) {
+					return badUse("UseClosure", "captured by a function literal")
+				}
+			}
+		}
+	}
+	p, child := a.up(e)
+	switch p := p.(type) {
+	case *ast.RangeStmt:
+		if p.X == child {
+			if p.Tok == token.ASSIGN {
+				return other("range over a Statement assigning to existing variables")
+			}
+			return ro("UseRange")
+		}
+	case *ast.IndexExpr:
+		if p.X == child {
+			q, ch := a.up(p)
+			switch q := q.(type) {
+			case *ast.AssignStmt:
+				for _, l := range q.Lhs {
+					if l == ch {
+						return badUse("UseElemWrite", "element of a Statement assigned in place")
+					}
+				}
+			case *ast.IncDecStmt:
+				return badUse("UseElemWrite", "element of a Statement modified in place")
+			case *ast.UnaryExpr:
+				if q.Op == token.AND {
+					return badUse("UseElemAddr", "address of an element of a Statement taken")
+				}
+			case *ast.RangeStmt:
+				if q.Key == ch || q.Value == ch {
+					return badUse("UseElemWrite", "element of a Statement assigned by range")
+				}
+			}
+			return ro("UseIndexRead")
+		}
+	case *ast.SliceExpr:
+		if p.X == child {
+			return wrap("UseReslice", a.classify(p))
+		}
+	case *ast.BinaryExpr:
+		if p.Op == token.EQL || p.Op == token.NEQ {
+			return ro("UseNilCmp")
+		}
+	case *ast.UnaryExpr:
+		if p.Op == token.AND {
+			return badUse("UseAddr", "address of a Statement value taken")
+		}
+	case *ast.ReturnStmt:
+		return badUse("UseReturned", "Statement value returned (the caller gets a second header over the same array)")
+	case *ast.CallExpr:
+		return a.classifyCall(e, p, child)
+	case *ast.AssignStmt:
+		return a.classifyAssign(e, p, child)
+	case *ast.ValueSpec:
+		for i, val := range p.Values {
+			if val != child {
+				continue
+			}
+			if len(p.Names) != len(p.Values) {
+				break
+			}
+			v, _ := a.info.Defs[p.Names[i]].(*types.Var)
+			if v == nil {
+				return stored("assigned to " + p.Names[i].Name)
+			}
+			key, bad := a.track(v, p)
+			if bad != "" {
+				return stored(bad)
+			}
+			return ro("UseCopyTo " + coqfmt.Str(key))
+		}
+	case *ast.CompositeLit, *ast.KeyValueExpr:
+		return stored("put in a composite literal")
+	case *ast.SendStmt:
+		return stored("sent on a channel")
+	case *ast.SelectorExpr:
+		return other("method or field selected on a Statement value (a method call takes the address of the copy)")
+	}
+	return other(fmt.Sprintf("Statement value used as %T operand (possible second header over the same array)", p))
+}
+
+func (a *analysis) classifyCall(e ast.Expr, p *ast.CallExpr, child ast.Node) use {
+	argi := -1
+	for i, x := range p.Args {
+		if x == child {
+			argi = i
+		}
+	}
+	if argi < 0 {
+		return other("Statement value called")
+	}
+	// conversion
+	if tv, ok := a.info.Types[p.Fun]; ok && tv.IsType() {
+		if len(p.Args) == 1 && isSlice(tv.Type) {
+			return wrap("UseConvert", a.classify(p))
+		}
+		return stored("converted to the non-slice type " + tv.Type.String())
+	}
+	if a.isAnyBuiltin(p.Fun) {
+		switch {
+		case (a.isBuiltin(p.Fun, "len") || a.isBuiltin(p.Fun, "cap")) && len(p.Args) == 1:
+			if a.isBuiltin(p.Fun, "len") {
+				return ro("UseLen")
+			}
+			return ro("UseCap")
+		case a.isBuiltin(p.Fun, "append") && argi == 0:
+			if a.isRecvDeref(e) {
+				// must be the right side of `*s = append(*s, ...)`
+				if as, ok := a.parent[p].(*ast.AssignStmt); ok && as.Tok == token.ASSIGN &&
+					len(as.Lhs) == 1 && len(as.Rhs) == 1 && as.Rhs[0] == p && a.isRecvDeref(as.Lhs[0]) {
+					return ro("UseAppendSelf")
+				}
+				return badUse("UseAppendDst", "append to a Statement whose result is not assigned back to it")
+			}
+			return badUse("UseAppendDst", "append to a copy of a Statement's slice header (it may write into the shared array)")
+		case a.isBuiltin(p.Fun, "append") && argi == len(p.Args)-1 && p.Ellipsis.IsValid():
+			return ro("UseAppendSrc")
+		case a.isBuiltin(p.Fun, "copy") && len(p.Args) == 2 && argi == 1:
+			return ro("UseCopySrc")
+		case a.isBuiltin(p.Fun, "copy") && argi == 0:
+			return badUse("UseCopyDst", "copy into a Statement (elements written in place)")
+		}
+		return other("Statement value passed to a builtin")
+	}
+	switch a.parent[p].(type) {
+	case *ast.GoStmt:
+		return stored("passed to a go statement (outlives the call)")
+	case *ast.DeferStmt:
+		return stored("passed to a deferred call")
+	}
+	fn, decl := a.callee(p)
+	if fn == nil {
+		return stored("passed to " + a.exprText(p.Fun) + ", which is not a function declared in package jen called directly")
+	}
+	sig := fn.Type().(*types.Signature)
+	n := sig.Params().Len()
+	var pv *types.Var
+	switch {
+	case sig.Variadic() && argi >= n-1:
+		if !(p.Ellipsis.IsValid() && argi == n-1 && argi == len(p.Args)-1) {
+			return stored("passed as one element of the variadic parameter of " + fn.Name())
+		}
+		pv = sig.Params().At(n - 1)
+	case argi < n:
+		pv = sig.Params().At(argi)
+	default:
+		return other("argument without a parameter")
+	}
+	key, bad := a.track(pv, decl)
+	if bad != "" {
+		return stored("passed to " + fn.Name() + ": " + bad)
+	}
+	return ro("UsePass " + coqfmt.Str(fnKey(decl)) + " " + coqfmt.Str(key))
+}
+
+func (a *analysis) classifyAssign(e ast.Expr, p *ast.AssignStmt, child ast.Node) use {
+	if p.Tok != token.ASSIGN && p.Tok != token.DEFINE {
+		return other("Statement value in an operator assignment")
+	}
+	for i, r := range p.Rhs {
+		if r != child {
+			continue
+		}
+		if len(p.Lhs) != len(p.Rhs) {
+			return other("Statement value in a multi-value assignment")
+		}
+		// the append call itself as the right side of `*s = append(*s, ...)`
+		if call, ok := e.(*ast.CallExpr); ok && p.Tok == token.ASSIGN && len(p.Lhs) == 1 &&
+			a.isBuiltin(call.Fun, "append") && len(call.Args) >= 1 &&
+			a.isRecvDeref(call.Args[0]) && a.isRecvDeref(p.Lhs[0]) {
+			return ro("UseAppendSelf")
+		}
+		lhs, ok := unparen(p.Lhs[i]).(*ast.Ident)
+		if !ok {
+			return stored("assigned to " + a.exprText(p.Lhs[i]))
+		}
+		if v, ok := a.info.Defs[lhs].(*types.Var); ok && p.Tok == token.DEFINE {
+			key, bad := a.track(v, p)
+			if bad != "" {
+				return stored(bad)
+			}
+			return ro("UseCopyTo " + coqfmt.Str(key))
+		}
+		if v, ok := a.info.Uses[lhs].(*types.Var); ok && a.tracked[v] != nil && a.selfReslice(e, v) {
+			return ro("UseSelfAssign")
+		}
+		return stored("assigned to the existing variable " + lhs.Name)
+	}
+	for i, l := range p.Lhs {
+		if l != child {
+			continue
+		}
+		if len(p.Lhs) == len(p.Rhs) {
+			// `*s = append(*s, ...)`
+			if len(p.Lhs) == 1 && p.Tok == token.ASSIGN && a.isRecvDeref(e) {
+				if call, ok := unparen(p.Rhs[0]).(*ast.CallExpr); ok && a.isBuiltin(call.Fun, "append") &&
+					len(call.Args) >= 1 && a.isRecvDeref(call.Args[0]) {
+					return ro("UseAppendSelf")
+				}
+			}
+			// `x = x[i:j]` for a tracked x
+			if id, ok := e.(*ast.Ident); ok && p.Tok == token.ASSIGN {
+				if v, ok := a.info.Uses[id].(*types.Var); ok && a.tracked[v] != nil && a.selfReslice(p.Rhs[i], v) {
+					return ro("UseSelfAssign")
+				}
+			}
+		}
+		if a.isRecvDeref(e) {
+			return other("Statement overwritten by something other than append to itself")
+		}
+		return other("Statement value overwritten by something other than a reslice of itself")
+	}
+	return other("Statement value in an assignment")
+}
+
+// holdsStatement: t holds a Statement by value inside a composite type (so copying a value
+// of type t copies a slice header without any Statement-typed expression appearing).
+func (a *analysis) holdsStatement(t types.Type, inside bool, seen map[types.Type]bool) bool {
+	if t == nil || seen[t] {
+		return false
+	}
+	seen[t] = true
+	if inside && types.Identical(t, a.stmtType) {
+		return true
+	}
+	if types.Identical(t, a.stmtType) {
+		return false
+	}
+	switch u := t.Underlying().(type) {
+	case *types.Struct:
+		for i := 0; i < u.NumFields(); i++ {
+			if a.holdsStatement(u.Field(i).Type(), true, seen) {
+				return true
+			}
+		}
+	case *types.Array:
+		return a.holdsStatement(u.Elem(), true, seen)
+	case *types.Slice:
+		return a.holdsStatement(u.Elem(), true, seen)
+	case *types.Map:
+		return a.holdsStatement(u.Key(), true, seen) || a.holdsStatement(u.Elem(), true, seen)
+	case *types.Chan:
+		return a.holdsStatement(u.Elem(), true, seen)
+	}
+	return false
+}
+
+func (a *analysis) report(at ast.Node, prefix string, u use) {
+	if u.bad == "" {
+		return
+	}
+	msg := fmt.Sprintf("%s: %s%s", a.posText(at.Pos()), prefix, u.bad)
+	t := a.top(at)
+	k := fmt.Sprintf("%p|%s", t, msg)
+	if a.seen[k] {
+		return
+	}
+	a.seen[k] = true
+	a.reports[t] = append(a.reports[t], msg)
+}
+
+// derived: e is a reslice or slice conversion of a header expression (rule H3): it gets no
+// row of its own, its operand's row shows it.
+func (a *analysis) derived(e ast.Expr) bool {
+	switch x := e.(type) {
+	case *ast.SliceExpr:
+		return a.isHeader(x.X)
+	case *ast.CallExpr:
+		if tv, ok := a.info.Types[x.Fun]; ok && tv.IsType() && len(x.Args) == 1 {
+			return a.isHeader(x.Args[0])
+		}
+	}
+	return false
+}
+
+// ofTracked: e is a mention of a tracked variable or a reslice of one (phase 2 classifies it).
+func (a *analysis) ofTracked(e ast.Expr) bool {
+	v := a.rootVar(e)
+	return v != nil && a.tracked[v] != nil
+}
+
+func (a *analysis) isHeader(e ast.Expr) bool {
+	e = unparen(e)
+	if a.isStmtValue(e) {
+		return true
+	}
+	if id, ok := e.(*ast.Ident); ok {
+		if v, ok := a.info.Uses[id].(*types.Var); ok && a.tracked[v] != nil {
+			return true
+		}
+	}
+	return a.derived(e)
 }
 
 // matchFile: is this file part of the package as the go tool builds it here (GOOS, GOARCH,
@@ -289,7 +729,12 @@ func main() {
 			files = append(files, f)
 		}
 	}
-	info := &types.Info{Types: map[ast.Expr]types.TypeAndValue{}, Uses: map[*ast.Ident]types.Object{}, Defs: map[*ast.Ident]types.Object{}}
+	info := &types.Info{
+		Types:      map[ast.Expr]types.TypeAndValue{},
+		Uses:       map[*ast.Ident]types.Object{},
+		Defs:       map[*ast.Ident]types.Object{},
+		Selections: map[*ast.SelectorExpr]*types.Selection{},
+	}
 	conf := types.Config{Importer: importer.ForCompiler(fset, "source", nil)}
 	pkg, err := conf.Check("github.com/dave/jennifer/jen", fset, files, info)
 	if err != nil {
@@ -309,6 +754,109 @@ func main() {
 		}
 	}
 
+	a := &analysis{
+		fset: fset, info: info, pkg: pkg, stmtType: stmtType,
+		parent:  map[ast.Node]ast.Node{},
+		decls:   map[*types.Func]*ast.FuncDecl{},
+		usesOf:  map[*types.Var][]*ast.Ident{},
+		tracked: map[*types.Var]*copyRow{},
+		reports: map[ast.Node][]string{},
+		seen:    map[string]bool{},
+	}
+	for _, f := range files {
+		var stack []ast.Node
+		ast.Inspect(f, func(x ast.Node) bool {
+			if x == nil {
+				stack = stack[:len(stack)-1]
+				return true
+			}
+			if len(stack) > 0 {
+				a.parent[x] = stack[len(stack)-1]
+			}
+			stack = append(stack, x)
+			return true
+		})
+		for _, d := range f.Decls {
+			if fd, ok := d.(*ast.FuncDecl); ok {
+				if fn, ok := info.Defs[fd.Name].(*types.Func); ok {
+					a.decls[fn] = fd
+				}
+			}
+		}
+	}
+	for id, o := range info.Uses {
+		if v, ok := o.(*types.Var); ok {
+			a.usesOf[v] = append(a.usesOf[v], id)
+		}
+	}
+	for _, ids := range a.usesOf {
+		sort.Slice(ids, func(i, j int) bool { return ids[i].Pos() < ids[j].Pos() })
+	}
+
+	// phase 1: every Statement-typed value expression (H1), in source order
+	type h1 struct {
+		e ast.Expr
+		u use
+	}
+	var h1s []h1
+	for _, f := range files {
+		ast.Inspect(f, func(x ast.Node) bool {
+			e, ok := x.(ast.Expr)
+			if !ok {
+				return true
+			}
+			if _, isParen := e.(*ast.ParenExpr); isParen {
+				return true
+			}
+			if tv, ok := info.Types[e]; ok && tv.Type != nil && !types.Identical(tv.Type, stmtType) &&
+				a.holdsStatement(tv.Type, false, map[types.Type]bool{}) {
+				a.report(e, "", other("expression of type "+tv.Type.String()+", which holds a Statement by value (copying it copies a slice header)"))
+			}
+			if !a.isStmtValue(e) {
+				return true
+			}
+			if _, ok := e.(*ast.CompositeLit); ok {
+				return true // a fresh value
+			}
+			h1s = append(h1s, h1{e, use{}})
+			return true
+		})
+	}
+	for i := range h1s {
+		h1s[i].u = a.classify(h1s[i].e)
+	}
+	// phase 2: every mention of every tracked variable, transitively
+	for len(a.queue) > 0 {
+		v := a.queue[0]
+		a.queue = a.queue[1:]
+		r := a.tracked[v]
+		for _, id := range a.usesOf[v] {
+			u := a.classify(id)
+			r.uses = append(r.uses, u)
+			a.report(id, fmt.Sprintf("%s (copy of a Statement's slice header declared at %s): ", id.Name, a.posText(v.Pos())), u)
+		}
+	}
+	// `x = x[i:j]` is recognised only once x is tracked: classify the H1 expressions again
+	// now that the set of tracked variables is final (tracking is idempotent)
+	for i := range h1s {
+		h1s[i].u = a.classify(h1s[i].e)
+		if !a.ofTracked(h1s[i].e) { // mentions of tracked variables were reported in phase 2
+			a.report(h1s[i].e, "", h1s[i].u)
+		}
+	}
+	if len(a.queue) != 0 {
+		die("internal: new copies discovered after the fixed point")
+	}
+	// rows for Statement-valued expressions that are not mentions of a tracked variable and
+	// are in any position other than the direct ones (rules 1-3 and 10)
+	direct := map[string]bool{"UseRange": true, "UseIndexRead": true, "UseLen": true, "UseCap": true, "UseAppendSelf": true}
+	for _, h := range h1s {
+		if direct[h.u.coq] || a.ofTracked(h.e) || a.derived(h.e) {
+			continue
+		}
+		a.exprRows = append(a.exprRows, &copyRow{fn: fnKey(a.top(h.e)), name: a.posText(h.e.Pos()) + " " + a.exprText(h.e) + " (expression)", pos: h.e.Pos(), uses: []use{h.u}})
+	}
+
 	cloneWrap, cloneFound, newFresh := false, false, false
 	type row struct {
 		name string
@@ -317,54 +865,55 @@ func main() {
 	}
 	var rows []row
 	var others []string
-
 	for _, f := range files {
 		for _, d := range f.Decls {
-			switch d := d.(type) {
-			case *ast.FuncDecl:
-				base, ptr := recvBase(d)
-				c := &checker{fset: fset, info: info, stmtType: stmtType}
-				if base == "Statement" {
-					if ptr && len(d.Recv.List[0].Names) == 1 {
-						if v, ok := info.Defs[d.Recv.List[0].Names[0]].(*types.Var); ok {
-							c.recv = v
-						}
-					}
-					if d.Body != nil {
-						c.walk(d.Body)
-					}
-					rows = append(rows, row{d.Name.Name, len(c.bad) == 0, c.bad})
-					if d.Name.Name == "Clone" {
+			fd, isFunc := d.(*ast.FuncDecl)
+			if isFunc {
+				if base, ptr := recvBase(fd); base == "Statement" {
+					bad := a.reports[d]
+					rows = append(rows, row{fd.Name.Name, len(bad) == 0, bad})
+					if fd.Name.Name == "Clone" {
 						cloneFound = true
-						cloneWrap = isWrapBody(d, info, c.recv)
+						var recv *types.Var
+						if ptr && len(fd.Recv.List[0].Names) == 1 {
+							recv, _ = info.Defs[fd.Recv.List[0].Names[0]].(*types.Var)
+						}
+						cloneWrap = isWrapBody(fd, info, recv)
 					}
 					continue
 				}
-				if d.Body != nil {
-					c.walk(d.Body)
-				}
-				others = append(others, c.bad...)
-				if d.Recv == nil && d.Name.Name == "newStatement" {
-					newFresh = isFreshBody(d)
-				}
-			case *ast.GenDecl:
-				if d.Tok == token.VAR {
-					c := &checker{fset: fset, info: info, stmtType: stmtType}
-					c.walk(d)
-					others = append(others, c.bad...)
+				if fd.Recv == nil && fd.Name.Name == "newStatement" {
+					newFresh = isFreshBody(fd)
 				}
 			}
+			others = append(others, a.reports[d]...)
 		}
 	}
 	if !cloneFound {
 		cloneWrap = false
 	}
-	sort.Slice(rows, func(i, j int) bool { return rows[i].name < rows[j].name })
+	sort.SliceStable(rows, func(i, j int) bool { return rows[i].name < rows[j].name })
 	sort.Strings(others)
+
+	var crows []*copyRow
+	for _, r := range a.tracked {
+		crows = append(crows, r)
+	}
+	crows = append(crows, a.exprRows...)
+	sort.Slice(crows, func(i, j int) bool {
+		pi, pj := fset.Position(crows[i].pos), fset.Position(crows[j].pos)
+		if pi.Filename != pj.Filename {
+			return pi.Filename < pj.Filename
+		}
+		if pi.Offset != pj.Offset {
+			return pi.Offset < pj.Offset
+		}
+		return crows[i].name < crows[j].name
+	})
 
 	out := os.Stdout
 	fmt.Fprintf(out, "(* GENERATED by tools/cmd/clone2coq from %s - do not edit *)\n", repo)
-	fmt.Fprintln(out, "From Jen Require Import Base.Bytes.")
+	fmt.Fprintln(out, "From Jen Require Import Base.Bytes Spec.CloneShape.")
 	fmt.Fprintln(out)
 	fmt.Fprintf(out, "(* type Statement []Code *)\nDefinition statement_is_code_slice : bool := %s.\n\n", coqfmt.Bool(isCodeSlice))
 	fmt.Fprintf(out, "(* func (s *Statement) Clone() *Statement { return &Statement{s} } *)\nDefinition clone_body_is_wrap : bool := %s.\n\n", coqfmt.Bool(cloneWrap))
@@ -374,7 +923,7 @@ func main() {
 		s := fmt.Sprintf("(%s, %s)", coqfmt.Str(r.name), coqfmt.Bool(r.ok))
 		rs = append(rs, s)
 	}
-	fmt.Fprintf(out, "(* methods of Statement: the slice header is only read, or replaced by append to itself *)\nDefinition append_only_methods : list (str * bool) := %s.\n\n", coqfmt.List(rs, "  "))
+	fmt.Fprintf(out, "(* methods of Statement: the slice header is only read (directly or through read-only\n   copies), or replaced by append to itself *)\nDefinition append_only_methods : list (str * bool) := %s.\n\n", coqfmt.List(rs, "  "))
 	var why []string
 	for _, r := range rows {
 		for _, w := range r.why {
@@ -386,7 +935,16 @@ func main() {
 	for _, o := range others {
 		os_ = append(os_, coqfmt.Str(o))
 	}
-	fmt.Fprintf(out, "(* every other place in package jen that could write through a Statement value or create a\n   second header over its array; expected empty *)\nDefinition other_writes : list str := %s.\n", coqfmt.List(os_, "  "))
+	fmt.Fprintf(out, "(* every other place in package jen that could write through a Statement value or create a\n   second header over its array that is not read-only; expected empty *)\nDefinition other_writes : list str := %s.\n\n", coqfmt.List(os_, "  "))
+	var cs []string
+	for _, r := range crows {
+		var us []string
+		for _, u := range r.uses {
+			us = append(us, u.coq)
+		}
+		cs = append(cs, fmt.Sprintf("(%s, %s, [%s])", coqfmt.Str(r.fn), coqfmt.Str(r.name), strings.Join(us, "; ")))
+	}
+	fmt.Fprintf(out, "(* every copy of a Statement's slice header (local variable or parameter: the category of each of\n   its mentions) and every Statement-valued expression in a position other than range, index\n   read, len, cap, append to itself: function, where, categories *)\nDefinition copies_readonly : list copy_row := %s.\n", coqfmt.List(cs, "  "))
 }
 
 // isWrapBody: the body is exactly `return &Statement{s}` with s the receiver.
